@@ -513,6 +513,17 @@ def ev(env, e, loc):
             key = (recv.ty, name)
             if key in env.methods:
                 return env.methods[key](env, recv, args)
+        if isinstance(recv, Tuple):
+            # arrays / vec! literals: the iterator adapters used by the add-mod gates
+            if name in ("into_iter", "iter", "clone") and not args:
+                return recv
+            if name == "reduce" and len(args) == 1 and callable(args[0]):
+                if not recv.items:
+                    raise Unsupported("reduce on an empty array")
+                acc = recv.items[0]
+                for x in recv.items[1:]:
+                    acc = args[0](acc, x)
+                return Opt(acc, ("const", True))
         if isinstance(recv, Opt) and ("Opt", name) in env.methods:
             return env.methods[("Opt", name)](env, recv, args)
         if is_poly(recv) and name in env.methods:
@@ -584,7 +595,11 @@ def std_field_env(env, base_names=("Base", "Fp", "Fq", "Fp2", "F", "Self")):
     env.methods[("Opt", "unwrap_or")] = unwrap_or
 
     def unwrap(en, r, a):
-        en.hyps.append(r.value * en.hyps_case[r.value] - 1)
+        hc = getattr(en, "hyps_case", {})
+        if is_poly(r.value) and r.value in hc:
+            en.hyps.append(r.value * hc[r.value] - 1)   # inverse of a non-zero element
+        elif r.cond != ("const", True):
+            raise Unsupported("unwrap of an option that may be None")
         return r.value
 
     env.methods[("Opt", "unwrap")] = unwrap
